@@ -3,7 +3,7 @@ R-READEXACT, R-DISPATCH, R-STOP, R-ONLYEXIT, R-PROPAGATE, R-ERRWRAP, R-LOSSY."""
 import re
 
 from .facts import callee, show, site, unwrap, walk
-from .symx import all_calls, cshow, paths_of, tshow
+from .symx import TooManyPaths, all_calls, cshow, known_functions, paths_of, reviewed_param_name, tshow
 from .terms import is_call, mentions, same, subterms
 
 READERS = {"ipp::reader::IppReader": "std::io::Read::read_exact", "ipp::reader::AsyncIppReader": "futures_util::AsyncReadExt::read_exact"}
@@ -96,26 +96,39 @@ def r_readexact(run, F, rule="R-READEXACT"):
                 r = ps[0].ret
                 ok = r[0] == "ctor" and isinstance(r[2], dict) and r[2].get("inner") == ("var", body["params"][0].get("name"))
                 run.ob(rule, "%s stores the source unwrapped" % path.split("::", 2)[-1], ok, tshow(r)[:120], site(body), key="%s|%s|new" % (rule, path))
-        # length arguments are u16 widenings
+        # length arguments are u16 widenings: on every path (helpers introduced later inlined) the length handed to read_bytes / read_string is
+        # `x as usize` / usize::from(x) of a read_u16 result, or the function's own length parameter handed on
         for path, body in non_test_bodies(F, [rty]):
-            for n in walk(body["body"]):
-                if n.get("k") == "mcall" and (n.get("callee") or "").endswith(("::read_bytes", "::read_string")) and (n.get("callee") or "").startswith(rty):
-                    a = unwrap(n["args"][0])
-                    if a.get("k") == "path" and a["res"].get("r") == "local":
-                        # a plain immutable `let size = raw as usize;` is looked through
-                        for s in walk(body["body"]):
-                            if s.get("k") == "let" and s.get("pat", {}).get("k") == "bind" and s["pat"].get("id") == a["res"].get("id") and \
-                                    "Mut" not in str(s["pat"].get("mode", "")) and "init" in s:
-                                a = unwrap(s["init"])
-                                break
-                    ok = a.get("k") == "cast" and a.get("ty") == "usize" and unwrap(a["e"]).get("ty") == "u16"
-                    if not ok and a.get("k") in ("call", "mcall") and (callee(a) or "") in ("std::convert::From::from", "std::convert::Into::into") and a.get("ty") == "usize":
-                        src = unwrap((a.get("args") or [a.get("recv")])[0] if a.get("k") == "call" else a["recv"])
-                        ok = src.get("ty") == "u16"        # usize::from(u16) / u16.into(): the lossless widening
-                    is_fwd = a.get("k") == "path" and a["res"].get("r") == "local" and path.endswith("::read_string")
+            if path not in known_functions() and body.get("vis") != "Public":
+                continue            # judged inlined into its callers
+            try:
+                ps = paths_of(body)
+            except TooManyPaths:
+                run.ob(rule, "%s: element length is a u16 widening" % path.split("::", 2)[-1], False, "too many paths", site(body), key="%s|%s|length" % (rule, path))
+                continue
+            params = {reviewed_param_name(path, i, p.get("name")) for i, p in enumerate(body.get("params", [])) if p.get("k") == "bind"}
+            seen = set()
+            for p in ps:
+                for t in p.trace:
+                    if not (is_call(t) and t[1].startswith(rty) and t[1].endswith(("::read_bytes", "::read_string")) and len(t[2]) >= 2):
+                        continue
+                    if id(t[3]) in seen:
+                        continue
+                    seen.add(id(t[3]))
+                    a = t[2][1]
+                    wid = False
+                    if isinstance(a, tuple) and a[0] == "cast" and a[1] == "usize":
+                        a, wid = a[2], True
+                    elif is_call(a, "std::convert::From::from", "std::convert::Into::into") and len(a[2]) == 1:
+                        a, wid = a[2][0], True
+                    src = a
+                    while isinstance(src, tuple) and src[0] in ("ok?", "await"):
+                        src = src[1]
+                    ok = wid and is_call(src) and src[1] == rty + "::<R>::read_u16"
+                    is_fwd = (not wid) and isinstance(a, tuple) and a[0] == "var" and a[1] in params
                     run.ob(rule, "%s: element length is a u16 widening" % path.split("::", 2)[-1], ok or is_fwd,
-                           "length argument %s : %s (a wider length lets one element allocate more than 64 KiB)" % (show(a), a.get("ty")), site(body, n),
-                           key="%s|%s|length" % (rule, path))
+                           "length argument %s (a length that is not the widened 16-bit length field lets one element allocate more than 64 KiB, or reads a different count)" % tshow(t[2][1])[:120],
+                           site(body, t[3]), key="%s|%s|length" % (rule, path))
     # forbidden I/O adaptors anywhere in reader.rs / parser.rs
     for path, body in non_test_bodies(F, ["ipp::reader::", "ipp::parser::"]):
         for n in walk(body["body"]):
@@ -136,6 +149,10 @@ def exact_buffer(body, buf):
     x = buf
     while x.get("k") in ("ref", "un"):
         x = unwrap(x["e"])
+    while x.get("k") == "mcall" and (x.get("callee") or "").split("::")[-1] in ("as_mut_slice", "as_mut", "borrow_mut", "deref_mut") and not x.get("args"):
+        x = unwrap(x["recv"])       # `buf.as_mut_slice()` is the whole buffer, like `&mut buf`
+        while x.get("k") in ("ref", "un"):
+            x = unwrap(x["e"])
     if x.get("k") == "index" and "RangeFull" in (unwrap(x["i"]).get("ty") or ""):
         x = unwrap(x["b"])          # `&mut buf[..]` is the whole buffer
         while x.get("k") in ("ref", "un"):
@@ -608,21 +625,22 @@ def r_lossy(run, F, rule="R-LOSSY"):
     # the names: read_string returns the lossy decoding of exactly the bytes it read (helpers inlined by the path builder)
     from .terms import mentions
     for rd in ("ipp::reader::IppReader::<R>::", "ipp::reader::AsyncIppReader::<R>::"):
-        b = F.body(rd + "read_string")
-        if b is None:
-            if "Async" in rd and not async_on(F):
-                continue
-            run.anchor_lost(rule, rd + "read_string")
+        if "Async" in rd and not async_on(F):
             continue
-        for p in paths_of(b):
+        b = F.body(rd + "read_name")
+        if b is None:
+            run.anchor_lost(rule, rd + "read_name")
+            continue
+        rs = F.body(rd + "read_string")         # the private text helper, judged inlined whether or not it exists as a function of its own
+        for p in paths_of(b, inline={rd + "read_string": rs} if rs is not None else None):
             if p.kind == "try" or (p.ret[0] == "ctor" and p.ret[1].endswith("::Err")):
                 continue
             m = mentions(p.ret)
             calls = set(m["callees"]) | {t[1] for t in p.trace if is_call(t)}
             ok = "std::string::String::from_utf8_lossy" in calls and any(c.endswith("::read_bytes") for c in calls)
             n += 1
-            run.ob(rule, "%sread_string = lossy text of the bytes read" % rd.split("::")[-2][:-5], ok,
-                   "read_string returns %s (names must be decoded with from_utf8_lossy from read_bytes: an undecodable name is replaced, never rejected or re-coded)" % tshow(p.ret)[:160],
+            run.ob(rule, "%sread_name = lossy text of the bytes read" % rd.split("::")[-2][:-5], ok,
+                   "read_name returns %s (names must be decoded with from_utf8_lossy from read_bytes: an undecodable name is replaced, never rejected or re-coded)" % tshow(p.ret)[:160],
                    site(b), key="%s|%sread_string" % (rule, rd))
     return n
 
@@ -652,14 +670,20 @@ def r_reject(run, F, rule="R-REJECT"):
             continue
         cen = {}
         for p in paths_of(b):
-            if p.kind == "try":
-                continue
             r = p.ret
+            if p.kind == "try":
+                # `helper(x)?` with the helper inlined: an Err the helper *constructs* is a rejection decided here, not an error handed on
+                v = r[1] if (isinstance(r, tuple) and r[0] == "err?") else None
+                if not (isinstance(v, tuple) and v[0] == "ctor" and v[1].endswith("::Err") and v[2] and
+                        not (isinstance(v[2][0], tuple) and (v[2][0][0] == "proj" or (v[2][0][0] == "call" and v[2][0][1] == "<from-err>")))):
+                    continue
+                r = v
             if r[0] == "ctor" and r[1].endswith("::Err"):
                 e0 = r[2][0] if r[2] else None
                 if isinstance(e0, tuple) and e0[0] == "proj" and str(e0[2]).startswith("Err.") and any(c[0] == "match" and (c[1] is e0[1] or c[1] == e0[1]) for c in p.conds):
                     continue        # `Err(e) => Err(e)`: the callee's own error handed on, not a new rejection
-                cen.setdefault(head(r), set()).add(" && ".join(cshow(c) for c in p.conds[-1:])[:160])
+                # the deciding test, with integer literals erased: `len != 4`, `len != 8`, .. reached through a per-syntax table are one test
+                cen.setdefault(head(r), set()).add(re.sub(r"\b\d+\b", "#", " && ".join(cshow(c) for c in p.conds[-1:]))[:160])
         allowed = T.get(fn, {})
         for h, conds in cen.items():
             n += 1
@@ -670,19 +694,61 @@ def r_reject(run, F, rule="R-REJECT"):
     return n
 
 
+class _Step:
+    def __init__(self, kind, trace, conds, ret):
+        self.kind, self.trace, self.conds, self.ret = kind, trace, conds, ret
+
+
+def value_step(F, pty, rd):
+    """The paths of 'one value tag' of a front end: the private helper `parse_value(tag)` when it exists, otherwise the paths through the
+    drive loop's body that read a name / a value or call the state machine (the helper written out in the loop).
+    Returns (body, [paths], predicate telling whether a term is the dispatched tag) or None."""
+    fn = pty + "::<R>::parse_value"
+    b = F.body(fn)
+    if b is not None:
+        tagv = ("var", b["params"][1].get("name")) if len(b.get("params", [])) > 1 else None
+        return b, [_Step(p.kind, p.trace, p.conds, p.ret) for p in paths_of(b)], (lambda x: x == tagv)
+    hb = F.body(pty + "::<R>::parse_header_attributes")
+    if hb is None:
+        return None
+    steps, seen = [], set()
+    for p in paths_of(hb):
+        for i, t in enumerate(p.trace):
+            if is_call(t, "<loop>") and len(t) > 3 and isinstance(t[3], dict):
+                if id(t[3]) not in seen:
+                    seen.add(id(t[3]))
+                    for q in t[3].get("paths", []) + t[3].get("breaks", []):
+                        steps.append(_Step("fall", q.trace, q.conds, q.ret))
+                if p.kind in ("try", "return"):
+                    steps.append(_Step(p.kind, p.trace[i + 1:], p.conds, p.ret))       # the iteration that leaves the function
+    mine = ("::read_name", "::read_value", "ParserState::parse_value")
+    steps = [q for q in steps if any(is_call(t) and t[1].endswith(mine) for t in q.trace)]
+    if not steps:
+        return None
+
+    def is_tag(x):
+        while isinstance(x, tuple) and x[0] in ("ok?", "await"):
+            x = x[1]
+        return is_call(x, rd + "read_tag")
+    for q in steps:
+        q.trace = [t for t in q.trace if not is_call(t, rd + "read_tag")]
+    return hb, steps, is_tag
+
+
 def r_token(run, F, rule="R-TOKEN"):
     """Each value tag is followed by exactly one name element and one value element, whatever the tag: the front ends' parse_value
     reads name then value on every path and hands both, unmodified, to the state machine with the tag it was given."""
     n = 0
     for fn, rd, st in (("ipp::parser::IppParser::<R>::parse_value", "ipp::reader::IppReader::<R>::", "ipp::parser::ParserState::parse_value"),
                        ("ipp::parser::AsyncIppParser::<R>::parse_value", "ipp::reader::AsyncIppReader::<R>::", "ipp::parser::ParserState::parse_value")):
-        b = F.body(fn)
-        if b is None:
-            if "Async" in fn and not async_on(F):
-                continue
+        if "Async" in fn and not async_on(F):
+            continue
+        vs_ = value_step(F, fn.rsplit("::<R>::", 1)[0], rd)
+        if vs_ is None:
             run.anchor_lost(rule, fn)
             continue
-        for p in paths_of(b):
+        b, steps, is_tag = vs_
+        for p in steps:
             reads = [t for t in p.trace if is_call(t) and t[1].startswith(rd)]
             names = [t[1][len(rd):] for t in reads]
             if p.kind == "try":
@@ -700,7 +766,7 @@ def r_token(run, F, rule="R-TOKEN"):
                     while isinstance(x, tuple) and x[0] in ("ok?", "await"):
                         x = x[1]
                     return x
-                ok = a[1] == ("var", b["params"][1].get("name")) and core(a[2]) is not None and is_call(core(a[2]), rd + "read_name") and is_call(core(a[3]), rd + "read_value")
+                ok = is_tag(a[1]) and core(a[2]) is not None and is_call(core(a[2]), rd + "read_name") and is_call(core(a[3]), rd + "read_value")
             run.ob(rule, "%s: every value tag is followed by one name read and one value read, both handed to the state machine" % fn.split("::")[-2], ok,
                    "reads on the path: %s; state-machine calls: %d [%s] (an element that is not read leaves its bytes in the stream: everything after it is misread)" % (
                        names, len(calls), " && ".join(cshow(c) for c in p.conds)[-160:]), site(b), key="%s|%s|name-value" % (rule, fn))
